@@ -319,7 +319,7 @@ CLIENT_K = {'quick': 5, 'thorough': 6}
 
 ARGS = ('x', '', ' ', 'x y', ':x', 'x:y', '\r', 'a\rb', '\n', 'a\nb', 'x\n', 'x\r', '\0', '\u00e9',
         'x ', ' x', 'x\t', 'x  y')   # incl. a line end at the END of a value, white space at either end, a tab, a double space
-PREFIXES = ARGS + ('n!u@h',)
+PREFIXES = ARGS + ('n!u@h', 'n@h', 'irc.example.org', 'n!u', 'n!@h', '!u@h')     # every shape a prefix can take (server name, nick, nick@host, ...)
 PARSED_BACK = ('ok', 'from_string-raises', 'from_string-differs')   # parsemsg() gave the fields back
 REFUSALS = (irc_message.Error, irc_utils.Error, ValueError)
 BENIGN = ('x', 'x y', 'x:y', '\u00e9')
